@@ -338,11 +338,14 @@ def run_check(mod, tier, seed, replay=None):
         if isinstance(o, dict) and "__harness_error__" in o:
             oracle_fail.append((i, "harness error running the implementation: " + o["__harness_error__"], None))
             continue
-        if mod.nontrivial(c, o):
-            distinct.add(canon(c))
-        why = mod.oracle(c, o)
+        try:
+            if mod.nontrivial(c, o):
+                distinct.add(canon(c))
+            why = mod.oracle(c, o)
+            fid = (mod.finding(c, o) if hasattr(mod, "finding") else None) if why else None
+        except Exception as e:  # fail closed: an observation the oracle cannot even interpret is reported
+            why, fid = "oracle could not interpret the observation (%s: %s)" % (type(e).__name__, e), None
         if why:
-            fid = mod.finding(c, o) if hasattr(mod, "finding") else None
             oracle_fail.append((i, why, fid))
     for i, why, fid in oracle_fail:
         if fid is not None and fid in kf_ids:
@@ -360,7 +363,12 @@ def run_check(mod, tier, seed, replay=None):
     for i, (c, o) in enumerate(zip(cases, obs)):
         if isinstance(o, dict) and "__harness_error__" in o:
             continue
-        t = mod.coq_term(c, o)
+        try:
+            t = mod.coq_term(c, o)
+        except Exception as e:
+            t = None
+            if not any(j == i for j, _, _ in oracle_fail):
+                broken.append("case %d cannot be encoded for the model (%s: %s)" % (i, type(e).__name__, e))
         if t is not None:
             terms.append(t)
             term_idx.append(i)
